@@ -10,8 +10,9 @@
 (*  strict   additionally the observation equals what the code-shaped model  *)
 (*           (Impl: the spliced tree printed by String() and re-parsed, the  *)
 (*           Queries() loop) predicts, and our parser model agrees with      *)
-(*           influxql's on the recorded token sequence.  Strict = TRUE is    *)
-(*           only used for the drift report, never for a verdict.            *)
+(*           influxql's on the recorded token sequence.  Never a verdict:    *)
+(*           Strict = "report" prints IMPL-DRIFT lines and accepts the line,  *)
+(*           "enforce" rejects it (manual use), "off" skips the comparison.   *)
 EXTENDS BatchSchedule, TraceCommon
 
 CONSTANT Strict
@@ -28,6 +29,9 @@ IsEv(e) == l <= Len(Trace) /\ Ln.ev = e /\ l' = l + 1
 (* continuation per binding (stack depth = number of bindings).  Comparing the  *)
 (* formula with TRUE makes TLC evaluate it as an ordinary Boolean value.         *)
 Holds(p) == p = TRUE
+StrictOK(p, what) == CASE Strict = "off"     -> TRUE
+                       [] Strict = "enforce" -> p
+                       [] OTHER              -> (p \/ PrintT(<<"IMPL-DRIFT", l, what>>))
 
 TrReset ==
     /\ IsEv("Reset")
@@ -64,13 +68,13 @@ TrSetTimes ==
     /\ IsEv("SetTimes")
     /\ SetTimes(Ln.which, Ln.s, Ln.e)
     /\ Holds(ObsVerdict(Ln.obs, <<Ln.s, Ln.e>>))
-    /\ Holds(Strict => ObsStrict(Ln.obs, IF Ln.which = "q" THEN q' ELSE c'))
+    /\ Holds(StrictOK(ObsStrict(Ln.obs, IF Ln.which = "q" THEN q' ELSE c'), "SetTimes.obs"))
        \* the other object keeps its own range (clone independence)
     /\ Holds(Has(Ln, "other") =>
            LET oT == IF Ln.which = "q" THEN cT ELSE qT
                oo == IF Ln.which = "q" THEN c ELSE q
            IN  /\ ObsVerdict(Ln.other, oT)
-               /\ (Strict => ObsStrict(Ln.other, oo)))
+               /\ StrictOK(ObsStrict(Ln.other, oo), "SetTimes.other"))
     /\ UNCHANGED tcfg
 
 (* CloneFindsLiterals on the real object: Clone succeeds and the clone is    *)
@@ -80,7 +84,7 @@ TrClone ==
     /\ DoClone
     /\ Ln.err = ""
     /\ Holds(ObsVerdict(Ln.obs, qT))
-    /\ Holds(Strict => (~c'.err /\ ObsStrict(Ln.obs, c')))
+    /\ Holds(StrictOK(~c'.err /\ ObsStrict(Ln.obs, c'), "Clone.obs"))
     /\ UNCHANGED tcfg
 
 (* ------------------------------------------------------------------------ *)
@@ -126,9 +130,11 @@ TrHistRet ==
              THEN /\ Ln.err = ""
                   /\ Len(Ln.qs) = Len(live)
                   /\ \A i \in DOMAIN live : HistItemVerdict(Ln.qs[i], live[i])
-                  /\ (Strict => /\ Len(Ln.qs) = Len(hist)
-                                /\ \A i \in DOMAIN hist : /\ Ln.qs[i].gs = hist[i].s /\ Ln.qs[i].ge = hist[i].e
-                                                          /\ (tcfg.gbLen > 0 => Ln.qs[i].gb.off = hist[i].gbo))
+                  /\ StrictOK(/\ Len(Ln.qs) = Len(hist)
+                              /\ \A i \in DOMAIN hist : /\ Ln.qs[i].gs = hist[i].s /\ Ln.qs[i].ge = hist[i].e
+                                                        /\ (tcfg.gbLen > 0 => Ln.qs[i].gb.off = hist[i].gbo)
+                              /\ \A i \in DOMAIN Ln.qs : Has(Ln.qs[i], "toks") => Parse(Ln.qs[i].toks) = Ln.qs[i].out,
+                              "HistRet.qs")
              ELSE Ln.err # "" /\ Ln.qs = <<>>)
     /\ issued' = issued \cup UNION { SeqToSet(Ln.qs[i].srcs) : i \in DOMAIN Ln.qs }
     /\ mode' = "idle"
